@@ -87,6 +87,11 @@ CHECKS['C17'] = dict(
     text='Random acyclic module graphs (2-8 files, package directories, whole/renamed/selected-symbol imports in random order and multiplicity, exports of let/fn/class, functions over private counters, missing modules, non-exported and private names) are written to disk and run on debug, release and debug under a collection schedule; stdout (module enter/exit markers, received values) and the terminal outcome are compared with a reference module model with snapshot instances.',
     note=_MODEL_NOTE + ' Cyclic imports are outside the property.', ref='DESIGN.md §2 C17')
 
+CHECKS['C18'] = dict(
+    technique='reference-model differential over generated call chains: stderr traceback parsed and compared frame by frame, backTrace/message/inner printed by the program, exit status observed in-process and at the OS',
+    text='Generated call chains (functions, methods, statics, initialisers, named/anonymous lambdas, native callbacks; depth 1-10) end in an explicit raise or a runtime error and are caught at the top, in a middle frame or not at all; the model tracks the call chain with the line numbers the printer assigned; every traceback frame (file, line, function name, native frames) and every backTrace line, the message, the inner error, the failing exit status, exit(n) for n up to 65535 and output completeness are compared on debug and release.',
+    note=_MODEL_NOTE + ' One statement per physical line (the line of a call is then unambiguous); files stay far below 65535 lines (u16 line table, D26).', ref='DESIGN.md §2 C18')
+
 PENDING = {}
 
 
